@@ -166,8 +166,14 @@ def run(chk):
     if quick and len(good) > 3500:
         good = r.sample(good, 3500)
     ill = [("handler" if "sig" in p else "binding", p) for p in P.tlc_programs(chk, "GenIll", 100, chk.seed)]
-    if quick and len(ill) > 2500:
-        ill = r.sample(ill, 2500)
+    if quick:
+        # thin out the two big families only; every small family is kept whole (a sample across all of them can lose a family of five)
+        big = ("operands of different types", "return paths of different types")
+        keep = [x for x in ill if x[1].get("why") not in big]
+        for fam, n in zip(big, (1300, 700)):
+            members = [x for x in ill if x[1].get("why") == fam]
+            keep += r.sample(members, min(n, len(members)))
+        ill = keep
     # list literals (empty list first / second, against lists, pointers, null, scalars): both verdicts from Typing.tla
     for p in P.tlc_programs(chk, "GenList", 100, chk.seed):
         if p["ok"]:
